@@ -58,6 +58,11 @@ fn main() {
         ("replay", "xlsb") => props::xlsb::replay(&args),
         ("replay", "xlsbframes") => props::xlsb::frames(&args),
         ("drive", "xlsb") => props::xlsb::drive(&args),
+        ("replay", "biffcells") => isolate::run_replay(&args, props::biff::replay_cells),
+        ("replay", "rk") => props::biff::replay_rk(&args),
+        ("replay", "sst") => isolate::run_replay(&args, props::sst::replay),
+        ("drive", "sst") => isolate::run_drive(&args, props::sst::drive),
+        ("drive", "biffcells") => isolate::run_drive(&args, props::biff::drive_cells),
         _ => {
             eprintln!("unknown command {} {}", args.cmd, args.sub);
             2
